@@ -553,6 +553,7 @@ int main(int argc, char** argv) {
 
         // ---------------------------------------------------------- pre-state
         gen_state(g, ix, s);
+        BiasRelations(g, s); // equal registers, product consistent with its factors (state.h)
         if (g.chance(1, 2)) { // half of the cases share most registers with the other cases of their group of 8 (state.h MixSticky)
             Rng gg = ctx.case_rng(c / 8, 0x6157);
             CaseState grp;
